@@ -25,10 +25,14 @@ def main():
     ap = argparse.ArgumentParser()
     ap.add_argument('name'); ap.add_argument('prop'); ap.add_argument('patch'); ap.add_argument('demo'); ap.add_argument('needs')
     ap.add_argument('--checks', default='')
+    ap.add_argument('--verif', default=str(ROOT), help='copy of /verif to run bin/check from (metas are filed under the tree this file is in)')
     a = ap.parse_args()
     checks = [c for c in a.checks.split(',') if c] or [a.prop]
     wt = Path(tempfile.mkdtemp(prefix='seedkeep_')); shutil.rmtree(wt)
-    assert sh(f'git -C /repo worktree add -q --detach {wt} HEAD').returncode == 0
+    import time as _t
+    for _try in range(8):
+        if sh(f'git -C /repo worktree add -q --detach {wt} HEAD').returncode == 0: break
+        _t.sleep(2 + _try)
     meta = dict(name=a.name, property=a.prop, needs=a.needs, repo_head=sh('git -C /repo rev-parse --short HEAD').stdout.strip())
     try:
         meta['demo_without_change_rc'] = sh(f'MPLBACKEND=Agg /venv/bin/python {a.demo} {wt}/src').returncode
@@ -44,7 +48,7 @@ def main():
             env = dict(os.environ, CC_REPO=str(wt), VERIF_SEED='0', VERIF_EVIDENCE_DIR=tempfile.mkdtemp(prefix='seed_ev_'))
             meta['checks'] = {}
             for p in checks:
-                c = subprocess.run([str(ROOT / 'bin' / 'check'), '--property', p, '--tier', 'quick'], capture_output=True, text=True, env=env)
+                c = subprocess.run([str(Path(a.verif) / 'bin' / 'check'), '--property', p, '--tier', 'quick'], capture_output=True, text=True, env=env)
                 vio = [l for l in c.stdout.splitlines() if l.startswith('VIOLATION')]
                 info = dict(rc=c.returncode, line=vio[0] if vio else '')
                 m = re.search(r'replay=(\S+)', vio[0]) if vio else None
@@ -55,8 +59,8 @@ def main():
                 print(p, info)
     finally:
         sh(f'git -C /repo worktree remove --force {wt}')
-        sh(f'/venv/bin/python {ROOT}/harness/extract.py /repo/src')
-        subprocess.run(['lake', 'build'], cwd=ROOT / 'lean', capture_output=True)
+        sh(f'/venv/bin/python {a.verif}/harness/extract.py /repo/src')
+        subprocess.run(['lake', 'build'], cwd=Path(a.verif) / 'lean', capture_output=True)
     meta['confirmed'] = bool(meta.get('applies') and meta.get('demo_without_change_rc') == 0 and meta.get('demo_with_change_rc', 0) != 0
                              and meta.get('tests_with_change') == meta.get('tests_without_change') and meta.get('imports_with_change'))
     meta['ran'] = ['demo with/without the change in a scratch worktree', 'pinned baseline pytest command with/without the change (summary line compared)',
